@@ -81,7 +81,9 @@ def _oracle(args):
     n = sum(1 for _ in xml.iter()) - 25
     # attributes written in the markup that the schema does not allow, or of the wrong type, are outside the property;
     # the by attribute that bluebell derives itself is not
-    errs = [e for e in errs if not e[2].startswith('attr:') or (e[2] == 'attr:by' and '{by' not in text and 'by ' not in text)]
+    # (nor is any other attribute the text does not write: eId, name, href ... are bluebell's own when the text never names them)
+    errs = [e for e in errs if not e[2].startswith('attr:') or (e[2] == 'attr:by' and '{by' not in text and 'by ' not in text)
+            or (e[2] != 'attr:by' and e[2][5:] not in text)]
     if not errs:
         return ('ok', None, n)
     return ('bad', errs, n)
@@ -110,7 +112,17 @@ def cases(ctx, n):
         out = []
         for _ in range(n):
             root = ctx.rng.choice(gen.ROOTS7)
-            out.append((stages.URIS[0], root, ctx.rng.choice(stages.PREFIXES), gen.any_text(ctx.rng, root)))
+            t = gen.any_text(ctx.rng, root)
+            r = ctx.rng.random()
+            # line endings: the whole text with Windows line ends, or a carriage return at the end of some lines (the grammar splits at \n only,
+            # so the \r becomes the last character of a num, a heading, a text - and XSD whitespace where an id is derived from it)
+            if r < 0.06: t = t.replace('\n', '\r\n')
+            elif r < 0.10: t = '\n'.join(l + ('\r' if l.strip() and ctx.rng.random() < 0.3 else '') for l in t.split('\n'))
+            out.append((stages.URIS[0], root, ctx.rng.choice(stages.PREFIXES), t))
+        for root in gen.ROOTS7:
+            for t in ('SEC 1\r\n  text\r\n', 'PART A\r\n  SEC 1.\r\n    SUBSEC (a)\r\n      x\r\n', 'DEBATESECTION 1\r\n  SPEECH\r\n    FROM a\r\n    x\r\n',
+                      'ITEMS\r\n  ITEM (a)\r\n    x\r\n', 'SCHEDULE\r\n  PARA 1\r\n    x\r\n'):
+                out.append((stages.URIS[0], root, '', t))
         return out + repeat_docs(ctx, max(40, n // 20))
     finally:
         gen.gen_attrs = old
